@@ -1,8 +1,75 @@
+/-
+C06 driver — one request line = one sequence of words run from the booted state.
+
+  C06 <tok>*          tok ::= p:<cell>            push_data(cell)
+                            | open-bitstr@<base>  the word open-bitstr; <base> = start() of the bit-string
+                                                   being opened (representation parameter, observed by the harness)
+                            | I+ | I-             intercept_output(true/false)
+                            | <word>              any modelled word of bitstr_ext.rs
+
+Answer: one report per non-push token, joined by " | ":
+  <status> <pos> <remain> <input> k<keep>[ <cell>…]
+  status = ok | err:<Xerr> | panic;  pos = offset − input.start();  input = `=` when the input bits are
+  the same as at the previous report, else b<bits>;  the data stack is reported as the number of
+  cells (from the bottom) kept from the previous report followed by the cells above them.
+-/
+import XehModel.Model.Cursor
 import XehModel.Driver.Codec
 
 namespace Xeh.Driver.C06
+open Xeh Xeh.Codec Xeh.Cur
 
-/-- stub: not modelled yet -/
-def handle (_args : List String) : String := "unsupported"
+/-- reals are compared bit for bit (NaN payloads included) -/
+def canonNaN : Cell → Cell := id
+
+def parseTok (t : String) : Option POp :=
+  if t.startsWith "p:" then (readCell (t.drop 2).toString).map POp.push
+  else if t.startsWith "open-bitstr@" then (t.drop 12).toString.toNat?.map POp.openBitstr
+  else if t = "I+" then some (.intercept true)
+  else if t = "I-" then some (.intercept false)
+  else wordOp t
+
+def statusStr : Outcome Unit → String
+  | .ok _ => "ok"
+  | .err e => "err:" ++ errStr e
+  | .panic _ => "panic"
+
+def commonPrefix : List Cell → List Cell → Nat
+  | a :: as, b :: bs => if a == b then commonPrefix as bs + 1 else 0
+  | _, _ => 0
+
+/-- stack delta against the previous report; stacks are bottom-first here -/
+def stackDelta (prev cur : List Cell) : String :=
+  let k := commonPrefix prev cur
+  let new := (cur.drop k).map cellStr
+  " ".intercalate (s!"k{k}" :: new)
+
+def bitsStr (b : List Bool) : String := String.ofList ('b' :: b.map fun x => if x then '1' else '0')
+
+structure Rep where
+  prevIn : List Bool := []
+  prevDs : List Cell := []
+  out : List String := []
+
+def report (r : Rep) (s : CurState) (o : Outcome Unit) : Rep :=
+  let ds := (s.ds.map canonNaN).reverse
+  let inS := if s.input = r.prevIn then "=" else bitsStr s.input
+  let line := s!"{statusStr o} {s.pos} {remainOf s} {inS} {stackDelta r.prevDs ds}"
+  { prevIn := s.input, prevDs := ds, out := line :: r.out }
+
+def isPush : POp → Bool
+  | .push _ => true
+  | _ => false
+
+def runOps : List POp → CurState → Rep → Rep
+  | [], _, r => r
+  | op :: ops, s, r =>
+    let (s1, o) := step s op
+    runOps ops s1 (if isPush op then r else report r s1 o)
+
+def handle (args : List String) : String :=
+  match args.mapM parseTok with
+  | none => "unsupported"
+  | some ops => " | ".intercalate (runOps ops CurState.boot {}).out.reverse
 
 end Xeh.Driver.C06
